@@ -27,7 +27,16 @@ import (
 
 // Reimport exports chain c (every registered module except evidence, whose store key simapp never mounts) and starts a
 // fresh application from the exported genesis. The new chain continues at the exported height with the same validators.
-func Reimport(c *world.Chain, now time.Time) (*world.Chain, error) {
+func Reimport(c *world.Chain, now time.Time) (n *world.Chain, err error) {
+	defer func() {
+		if r := recover(); r != nil {
+			n, err = nil, fmt.Errorf("panic during export / import: %v", r)
+		}
+	}()
+	return reimport(c, now)
+}
+
+func reimport(c *world.Chain, now time.Time) (*world.Chain, error) {
 	var mods []string
 	for _, m := range c.App.ModuleManager.ModuleNames() {
 		if m != "evidence" {
